@@ -57,6 +57,16 @@ def programs(nmax, tier):
                 lines.append("G o = new G(); o.app(%s);" % args)
             src = pre + "function main() -> void { " + decl + " " + " ".join(lines) + " }\n"
             out.append((src, n, ops))
+    # the angle argument written as every kind of float-typed expression (variable, arithmetic, call result, cast, int division,
+    # field, array element, parameter), each on a superposed input
+    forms = [("float t = 0.5f;", "t", 0.5), ("", "0.25f * 2", 0.5), ("", "half()", 0.5), ("", "(float) 1", 1.0), ("", "1 / 2", 0.5), ("", "0.0f - 0.75f", -0.75),
+             ("float[2] ts = {0.25f, 1.5f};", "ts[1]", 1.5), ("A ao = new A();", "ao.th", 1.25), ("", "pass(0.5f)", 0.5), ("int k = 3;", "k * 0.5f", 1.5)]
+    pre = "function half() -> float { return 0.5f; }\nfunction pass(float v) -> float { return v; }\nclass A { public float th = 1.25f; public constructor() -> A = default; }\n"
+    for g in ("rx", "ry", "rz"):
+        for decl, expr, val in forms:
+            for q in (0, 1):
+                src = pre + "function main() -> void { qubit[2] r; h(r[0]); h(r[1]); %s %s(r[%d], %s); }\n" % (decl, g, q, expr)
+                out.append((src, 2, [("h", 0, -1, 0.0), ("h", 1, -1, 0.0), (g, q, -1, refsim.f32(val))]))
     return out
 
 
